@@ -489,6 +489,25 @@ func runCase(c Case) *pbt.Result {
 		if res := unchanged("Merge"); res != nil {
 			return res
 		}
+		// the slice of operands is the caller's: merging a prefix of it (incremental merging, batching) must leave the
+		// caller's slice as it was, also the elements behind the prefix (the slice has spare capacity, as slices have)
+		{
+			room := make([]*hll.HyperLogLog, k, k+3)
+			copy(room, hs)
+			for cut := 0; cut <= k; cut++ {
+				recv := hs[cut%k]
+				recv.Merge(room[:cut]...)
+				full3 := room[:k+1]
+				for i := range full3 {
+					if (i < k && full3[i] != hs[i]) || (i == k && full3[i] != nil) {
+						return pbt.Fail("p=%d: Merge called with the first %d of the caller's %d operands changed element %d of the caller's slice", c.P, cut, k, i)
+					}
+				}
+			}
+			if vb := room[0].Merge(room[1:]...).GetBytes(); !bytes.Equal(vb, full) {
+				return pbt.Fail("p=%d: after merges over prefixes of the operand slice, merging all of it differs from the union: %s", c.P, diffAt(vb, full))
+			}
+		}
 		if k >= 2 {
 			rev := make([]*hll.HyperLogLog, 0, k-1)
 			for i := k - 2; i >= 0; i-- {
